@@ -464,15 +464,89 @@ def shard(ctx, which, n):
         R.hyp_campaign(ctx, which, st_header(), lambda items: header_case(ctx, items), n)
     elif which == 'keepalive':
         R.hyp_campaign(ctx, which, st_keepalive_case(), lambda c: keepalive_case(ctx, c), n)
+    elif which == 'reconfigure':
+        R.hyp_campaign(ctx, which, st_reconfigure(), lambda c: reconfigure_case(ctx, c), n)
     else:
         R.hyp_campaign(ctx, which, st_reject_case(), lambda c: reject_case(ctx, c), n)
+
+
+# --------------------------------------------------- part reconfigure: the codings are changed while the provider is running
+def st_reconfigure():
+    from sdc11073.httpserver.compression import CompressionHandler
+    codings = sorted(CompressionHandler.available_encodings)
+    return st.lists(st.lists(st.sampled_from(codings), max_size=3, unique=True), min_size=1, max_size=4)
+
+
+def reconfigure_case(ctx, sets):
+    """A provider that created its HTTP server itself; set_used_compression(...) is called while it runs; after every
+    call a GetMdib request that accepts every coding is answered through the real request handler, with what the
+    provider handed to its server at start-up: the response coding is one that is enabled now, or none."""
+    import re as _re
+
+    from sdc11073.httpserver.compression import CompressionHandler
+    from sdc11073.provider import providerimpl
+    from vf import loopback as L
+    from vf import world as W
+    from vf.props import c01
+
+    class Server(L.FakeHttpServer):
+        created = []
+
+        def __init__(self, my_ipaddress, ssl_context, supported_encodings=None, logger=None, chunk_size=0, **_kw):  # noqa: ARG002
+            super().__init__(ip=my_ipaddress, net=L.NET)
+            self.supported_encodings = supported_encodings  # (the object the provider hands over, not a copy)
+            self.chunk_size = chunk_size
+            Server.created.append(self)
+
+        def join(self, *a):
+            pass
+    c01.park_role_workers()
+    L.reset_network()
+    W.quiet_logging()
+    saved = providerimpl.HttpServerThreadBase
+    providerimpl.HttpServerThreadBase = Server
+    out = []
+    world = None
+    ctx.case(sets, True, 'reconfigure', classes=(f'calls={len(sets)}',))
+    try:
+        world = W.World(W.fixture('mdib_tns.xml'), own_server=True)
+        consumer, _ = world.add_consumer(init_mdib=False)
+        get_mdib = next(e for e in L.NET.log if e.action and e.action.endswith('/GetMdib')) if any(
+            e.action and e.action.endswith('/GetMdib') for e in L.NET.log) else None
+        if get_mdib is None:
+            consumer.client('Get').get_mdib()
+            get_mdib = next(e for e in L.NET.log if e.action and e.action.endswith('/GetMdib'))
+        server = Server.created[0]
+        mem = M.MemServer()
+        mem.dispatcher = server.dispatcher
+        mem.supported_encodings = server.supported_encodings
+        everything = ', '.join(sorted(CompressionHandler.available_encodings))
+        for enabled in sets:
+            world.provider.set_used_compression(*enabled)
+            raw = (f'POST {get_mdib.path} HTTP/1.1\r\nHost: h\r\nContent-Type: application/soap+xml; charset=utf-8\r\n'
+                   f'Accept-Encoding: {everything}\r\nContent-Length: {len(get_mdib.request)}\r\n\r\n').encode() + get_mdib.request
+            response, exc, _reader = M.handle_raw(mem, raw)
+            if exc is not None:
+                raise exc
+            m = _re.search(rb'(?im)^content-encoding:\s*([^\r\n]+)', response.partition(b'\r\n\r\n')[0])
+            used = m.group(1).decode().strip() if m else None
+            if used is not None and used not in enabled:
+                out.append((f'{P}/reconfigure/coding-not-enabled-any-more',
+                            f'after set_used_compression{tuple(enabled)} (earlier: {sets[:sets.index(enabled)]}) a request '
+                            f'accepting {everything!r} was answered with Content-Encoding {used!r}'))
+                break
+    finally:
+        providerimpl.HttpServerThreadBase = saved
+        if world is not None:
+            world.close()
+    return out
 
 
 def run(ctx):
     q = ctx.tier == 'quick'
     jobs = [('echo', 150 if q else 6000)] * 6 + [('chunks', 200 if q else 6000)] * 3 + [
         ('header', 1500 if q else 60000)] * 3 + [('reject', 300 if q else 10000)] * 3 + [
-        ('keepalive', 300 if q else 10000)]
+        ('keepalive', 300 if q else 10000), ('reconfigure', 12 if q else 300)]
     R.run_shards(ctx, __name__, 'shard', jobs)
 
 
@@ -486,6 +560,8 @@ def replay(part, case):
         return chunk_case(ctx, case)
     if part == 'keepalive':
         return keepalive_case(ctx, case)
+    if part == 'reconfigure':
+        return reconfigure_case(ctx, case)
     if part == 'header':
         return header_case(ctx, [tuple(i) for i in case])
     return reject_case(ctx, case)
